@@ -150,7 +150,8 @@ theorem addDeposit_both {s s' : State} {pid who amt : Nat} (hb : Both s) (h : ad
 
 theorem submit_both {s s' : State} {who : Addr} {msgs : List Msg} {initial : Nat} {exp : Bool} (hb : Both s)
     (h : submit s who msgs initial exp = .ok s') : Both s' := by
-  unfold submit at h
+  rw [submit_eq] at h
+  unfold submitSpec at h
   split at h
   · cases h
   · rename_i hcm
@@ -191,7 +192,8 @@ theorem cancel_both {s s' : State} {pid : Nat} {who : Addr} (hb : Both s) (h : c
 
 theorem vote_both {s s' : State} {pid : Nat} {voter : Addr} {opts : List (Opt × Nat)} (hb : Both s)
     (h : vote s pid voter opts = .ok s') : Both s' := by
-  unfold vote at h
+  rw [vote_eq] at h
+  unfold voteSpec at h
   split at h
   · cases h
   · rename_i hv
@@ -210,8 +212,8 @@ theorem dropInactive_both {s s' : State} {pid : Nat} (hb : Both s) (hi : Inv s) 
     (h : dropInactive pid s = .ok s') : Both s' := by
   obtain ⟨t, ht⟩ := hq
   obtain ⟨p0, hp0, hst0, _⟩ := hb.q.inactSound t pid ht
-  unfold dropInactive at h
-  simp only [refundRun_eq, burnRun_eq] at h
+  rw [dropInactive_eq] at h
+  unfold dropInactiveSpec at h
   rw [hp0] at h
   simp only at h
   have b1 : Both { s with props := dropProp s.props pid, inactive := removeQ (p0.depositEnd, pid) s.inactive,
@@ -354,8 +356,8 @@ theorem dropInactive_tot {s : State} {id : Nat} (h1 : inactiveSettleShapeOk = tr
     (hq : ∃ t, (t, id) ∈ s.inactive) : ∃ s', dropInactive id s = .ok s' := by
   obtain ⟨t, ht⟩ := hq
   obtain ⟨p0, hp0, _, _⟩ := ha.both.q.inactSound t id ht
-  unfold dropInactive
-  simp only [refundRun_eq, burnRun_eq]
+  rw [dropInactive_eq]
+  unfold dropInactiveSpec
   simp only [hp0, h1, if_true]
   split
   · exact refundDeposits_total (by simpa using ha.inv.bal)
@@ -371,8 +373,8 @@ theorem dropInactive_step {s s' : State} {id : Nat} (h1 : inactiveSettleShapeOk 
   intro id' hne ⟨t', ht'⟩
   refine ⟨t', ?_⟩
   have hia : s'.inactive = removeQ (p0.depositEnd, id) s.inactive := by
-    unfold dropInactive at hs'
-    simp only [refundRun_eq, burnRun_eq] at hs'
+    rw [dropInactive_eq] at hs'
+    unfold dropInactiveSpec at hs'
     simp only [hp0, h1, if_true] at hs'
     split at hs'
     · exact (refundDeposits_spec (by simpa using ha.inv.bal) hs').2.2.2.1
